@@ -99,7 +99,17 @@ pub fn run_c13(cfg: &RunCfg, trace: bool) -> RunOut {
     // the same call sequence through the async port (every 4th run; no EmbeddedFS there)
     if cx.out.violations.is_empty() && cfg.seed % 4 == 0 && !matches!(cfg.specs[0], crate::stack::Spec::Emb) {
         use crate::asyncsim::*;
-        if let Ok(ab) = abuild(&cfg.specs[0], crate::rng::mix(cfg.order_seed, 0), cfg.permute, crate::rng::mix(cfg.seed, 0xA5), 40) {
+        // which executor context: none at all / a tokio runtime entered for the whole run / a
+        // tokio runtime entered only while the stack is CREATED (the calls then run without one)
+        let mode = (cfg.seed / 4) % 3;
+        let rt = if mode > 0 { tokio::runtime::Builder::new_current_thread().build().ok() } else { None };
+        let built = {
+            let _g = rt.as_ref().map(|r| r.enter());
+            abuild(&cfg.specs[0], crate::rng::mix(cfg.order_seed, 0), cfg.permute, crate::rng::mix(cfg.seed, 0xA5), 40)
+        };
+        let _guard_for_calls = if mode == 1 { rt.as_ref().map(|r| r.enter()) } else { None };
+        cx.out.count(["probe.c13.async_no_runtime", "probe.c13.async_inside_tokio", "probe.c13.async_created_inside_tokio_used_outside"][mode as usize]);
+        if let Ok(ab) = built {
             let mut ax = AExec { root: ab.root.clone(), slots: Default::default(), others: vec![] };
             ab.ctl.on.store(true, Ordering::SeqCst);
             cx.out.count("probe.c13.async_runs");
